@@ -330,6 +330,11 @@ def _check_snap(run, world, mod, rfn):
            sample={"rule": "R-MEMR-SNAP", "read": rret, "from_list": fret})
     # from_list: indexes list_ by location.address, None/IndexError ->
     # MemoryLocationNotImplemented, bytes in location order
+    # helpers and comprehensions of from_list written out first
+    from ..normal import expand_listcomps_with_calls
+    from ..memseq import PRIMITIVES as _PRIMS
+    ffn = normalise(expand_listcomps_with_calls(ffn), world, LOC, mvcls,
+                    primitives=_PRIMS, aliases="params")
     lparam = ffn.args.args[1].arg
     loops = [n for n in ast.walk(ffn) if isinstance(n, ast.For)]
     order = len(loops) == 1 and unparse(loops[0].iter) == "cls.locations" \
@@ -483,7 +488,15 @@ def _check_read_all(run, world, mod, Q, fn, cfg, ys, sel):
                    if bad else ""), where(mod, fn),
                sample={"rule": "R-MEMR-LATCH", "exit": what,
                        "worlds": len(W.at(ex))})
-    # latch only when asked and supported
+    # latch - and un-latch - only when asked and supported: a read that was
+    # told not to latch writes nothing (it would release a latch the caller
+    # holds, or re-lock a bank the caller unlocked)
+    for y in unl:
+        ok = W.must(y.node, ("cond", "use_latch", True)) and W.must(
+            y.node, ("cond", "self.has_latch", True))
+        run.ob("R-MEMR-LATCH", Q + "#unlatch-guard", ok,
+               "the un-latch write must be guarded by use_latch and "
+               "self.has_latch, like the latch write", where(mod, y.node))
     for y in latch:
         ok = W.must(y.node, ("cond", "use_latch", True)) and W.must(
             y.node, ("cond", "self.has_latch", True))
